@@ -275,23 +275,30 @@ def shared_plane_scenario(ctx):
     if abs(base_pt[1]) > 75:
         base_pt = (base_pt[0], math.copysign(75.0, base_pt[1]))
     nim = rng.choice([2, 3, 3])
-    members = [scenes.mk_fits(rng, kind=rng.choice(['cd', 'pc']), pointing=base_pt, scale=3e-5, shape=(1024, 1024))[0]
-               for _ in range(nim)]
+    jw = rng.random() < 0.4             # all FITS or all mock JWST (one matcher-free call, match=None)
+    if jw:
+        members = [scenes.mk_jwst(rng, pointing=base_pt)[0] for _ in range(nim)]
+    else:
+        members = [scenes.mk_fits(rng, kind=rng.choice(['cd', 'pc']), pointing=base_pt, scale=3e-5, shape=(1024, 1024))[0]
+                   for _ in range(nim)]
     which = rng.choice(['member0', 'member-last', 'nonmember'])
     if which == 'nonmember':
-        plane_obj = scenes.mk_fits(rng, kind='cd', pointing=base_pt, scale=3e-5, shape=(1024, 1024))[0]
+        plane_obj = scenes.mk_jwst(rng, pointing=base_pt)[0] if jw else \
+            scenes.mk_fits(rng, kind='cd', pointing=base_pt, scale=3e-5, shape=(1024, 1024))[0]
     else:
         plane_obj = members[0] if which == 'member0' else members[-1]
     plane0 = plane_obj.copy()           # the plane as it is before the call: the chart of the oracle
     fitgeom = rng.choice(['shift', 'general', 'rscale'])
     n = rng.choice([6, 12])
-    # true positions in the chart; they must fall on every detector: a small central patch
-    R = np.array([[rng.uniform(-150, 150) for _ in range(n)], [rng.uniform(-150, 150) for _ in range(n)]])
+    # true positions in the chart; they must fall on every detector: a small central patch (100 pixels)
+    pu = float(plane0.tanp_center_pixel_scale) if jw else 1.0
+    half = (100.0 if jw else 150.0) * pu
+    R = np.array([[rng.uniform(-half, half) for _ in range(n)], [rng.uniform(-half, half) for _ in range(n)]])
     ra, dec = plane0.tanp_to_world(R[0], R[1])
     refcat = Table([np.asarray(ra, dtype=float), np.asarray(dec, dtype=float)], names=['RA', 'DEC'])
     ims, pix = [], []
     for k, m in enumerate(members):
-        G = c02.gen_corr(rng, 1.0, False)
+        G = c02.gen_corr(rng, pu, False)
         if fitgeom == 'shift':
             G = Aff(np.eye(2), G.t)
         elif fitgeom == 'rscale':
@@ -302,13 +309,18 @@ def shared_plane_scenario(ctx):
         src = Ginv(R)                                    # where the image's WCS puts the sources now
         sra, sdec = plane0.tanp_to_world(src[0], src[1])
         px, py = m.world_to_det(sra, sdec)
+        nx_, ny_ = scenes.image_size(m)
+        if not (np.all(np.isfinite(px)) and np.all(np.isfinite(py)) and np.min(px) > 20 and np.min(py) > 20 and
+                np.max(px) < nx_ - 20 and np.max(py) < ny_ - 20):
+            ctx.branch('shared-plane:skipped-patch-off-detector')
+            return
         c = m if m is plane_obj else m.copy()
         c.meta['catalog'] = Table([np.asarray(px, dtype=float), np.asarray(py, dtype=float)], names=['x', 'y'])
         c.meta['name'] = 'im%d' % k
         ims.append(c)
         pix.append((np.asarray(px, dtype=float), np.asarray(py, dtype=float)))
-    case = {'op': 'shared-plane', 'nim': nim, 'plane': which, 'fitgeom': fitgeom, 'n': n}
-    ctx.case(case, nontrivial=True, branch='shared-plane:%s:%s' % (which, fitgeom))
+    case = {'op': 'shared-plane', 'nim': nim, 'plane': which, 'fitgeom': fitgeom, 'n': n, 'jwst': jw}
+    ctx.case(case, nontrivial=True, branch='shared-plane:%s:%s:%s' % ('jwst' if jw else 'fits', which, fitgeom))
     try:
         align_wcs(ims, refcat=refcat, ref_tpwcs=plane_obj, fitgeom=fitgeom, match=None, nclip=None, sigma=3.0)
     except Exception as e:   # noqa
@@ -322,7 +334,7 @@ def shared_plane_scenario(ctx):
         landed = np.array(plane0.world_to_tanp(*c.det_to_world(*pix[k])), dtype=float)
         err = float(np.max(np.hypot(*(landed - R))))
         rho_rad = corrsim.field_radius_units(c) * corrsim.plane_unit_rad(c)
-        b = plane_bound(plane0, c, 5.0, rho_rad, True) * (3 + nim)
+        b = plane_bound(plane0, c, 5.0 * pu, rho_rad, True) * (3 + nim)
         if not np.isfinite(err) or err > b:
             ctx.oracle_fail(case, {'what': 'an image aligned in a reference plane shared with the other images of the '
                                            'call does not land on the reference', 'image': k, 'err': err, 'bound': b})
